@@ -1589,6 +1589,34 @@ func ruleDriver(c *Ctx) {
 			if !okStop && bad == "" {
 				bad = "no branch on step(...) == scanError that leaves the loop: scanning continues past an error"
 			}
+			// no other way out of the loop: every exit edge from inside the body is the
+			// scanError edge or leads to an error return only
+			for bb := range body {
+				if bb == h {
+					continue
+				}
+				for si, sx := range bb.Succs {
+					if body[sx] {
+						continue
+					}
+					isErrEdge := false
+					if iff, ok := bb.Instrs[len(bb.Instrs)-1].(*ssa.If); ok {
+						if eq, ok := isErrCmp(iff.Cond, call); ok {
+							es := 1
+							if eq {
+								es = 0
+							}
+							isErrEdge = si == es
+						}
+					}
+					if isErrEdge || b.rejects(sx) {
+						continue
+					}
+					if bad == "" {
+						bad = "the loop over the input can be left at " + b.posOf(bb.Instrs[len(bb.Instrs)-1]) + " before the input is exhausted and without an error: the bytes that follow are never shown to the scanner (text after a complete value is accepted)"
+					}
+				}
+			}
 		}
 		if bad != "" {
 			l.add("R-DRIVER", "codec", key, b.rel(fn.Pos()), Violated, bad, true)
@@ -1728,6 +1756,136 @@ func ruleDriver(c *Ctx) {
 			v, why = Violated, bad
 		}
 		l.add("R-DRIVER", "codec", key, b.rel(fn.Pos()), v, why, true)
+	}
+
+	// the line break of Indent: '\n', the prefix once, then one copy of indent per nesting level
+	if fn := fnOf(sp, "Indent"); fn != nil {
+		key := "Indent: a line break is a newline, the prefix, and depth copies of the indent string"
+		// the helper that writes the newline byte
+		var nl *ssa.Function
+		for _, ci := range callsTo(fn, func(cc *ssa.CallCommon) bool {
+			f := cc.StaticCallee()
+			return f != nil && f.Pkg == sp && f.Blocks != nil
+		}) {
+			f := ci.Common().StaticCallee()
+			allInstrs(f, func(i ssa.Instruction) {
+				if c2, ok := i.(*ssa.Call); ok {
+					if g := c2.Call.StaticCallee(); g != nil && stdName(g) == "bytes.(*Buffer).WriteByte" {
+						if k, ok := intConst(c2.Call.Args[1]); ok && k == '\n' {
+							nl = f
+						}
+					}
+				}
+			})
+		}
+		if nl == nil {
+			l.add("R-DRIVER", "codec", key, b.rel(fn.Pos()), Info, "no helper that writes the newline byte: the line break is written some other way; not decided", false)
+		} else {
+			bad := ""
+			var prefixP, indentP, depthP *ssa.Parameter
+			nWrites := 0
+			allInstrs(nl, func(i ssa.Instruction) {
+				c2, ok := i.(*ssa.Call)
+				if !ok {
+					return
+				}
+				g := c2.Call.StaticCallee()
+				if g == nil {
+					return
+				}
+				name := stdName(g)
+				switch name {
+				case "bytes.(*Buffer).WriteByte":
+					nWrites++
+					if innermostLoopHeader(c2.Block()) != nil {
+						bad = "the newline byte is written inside a loop"
+					}
+				case "bytes.(*Buffer).WriteString":
+					nWrites++
+					p, isP := c2.Call.Args[1].(*ssa.Parameter)
+					h := innermostLoopHeader(c2.Block())
+					switch {
+					case isP && h == nil && prefixP == nil:
+						prefixP = p
+					case isP && h != nil && indentP == nil:
+						indentP = p
+						// counted loop 0..depth by 1
+						okLoop := false
+						for _, ins := range h.Instrs {
+							phi, ok := ins.(*ssa.Phi)
+							if !ok {
+								continue
+							}
+							start, step := false, false
+							for _, e := range phi.Edges {
+								if k, ok := intConst(e); ok && k == 0 {
+									start = true
+								}
+								if bo, ok := e.(*ssa.BinOp); ok && bo.Op == token.ADD && bo.X == ssa.Value(phi) {
+									if k, ok := intConst(bo.Y); ok && k == 1 {
+										step = true
+									}
+								}
+							}
+							if !start || !step {
+								continue
+							}
+							for _, r := range *phi.Referrers() {
+								if bo, ok := r.(*ssa.BinOp); ok && bo.Op == token.LSS && bo.X == ssa.Value(phi) {
+									if dp, ok := bo.Y.(*ssa.Parameter); ok {
+										depthP = dp
+										okLoop = true
+									}
+								}
+							}
+						}
+						if !okLoop {
+							bad = "the copies of the indent string are not written by a loop counting from 0 by 1 below the depth parameter"
+						}
+					case isP:
+						bad = "a further string parameter is written at " + b.posOf(c2)
+					default:
+						// strings.Repeat(indent, depth) is the other accepted spelling
+						if rc, ok := c2.Call.Args[1].(*ssa.Call); ok {
+							if rf := rc.Call.StaticCallee(); rf != nil && stdName(rf) == "strings.Repeat" {
+								ip, ok1 := rc.Call.Args[0].(*ssa.Parameter)
+								dp, ok2 := rc.Call.Args[1].(*ssa.Parameter)
+								if ok1 && ok2 && indentP == nil {
+									indentP, depthP = ip, dp
+									return
+								}
+							}
+						}
+						bad = "the text written at " + b.posOf(c2) + " is " + describeValue(c2.Call.Args[1]) + ": not the prefix, and not one copy of the indent per level (computed padding must equal depth copies for every depth)"
+					}
+				default:
+					if strings.HasPrefix(name, "bytes.(*Buffer).") {
+						nWrites++
+						bad = "unexpected write " + name + " at " + b.posOf(c2)
+					}
+				}
+			})
+			if bad == "" && (prefixP == nil || indentP == nil || depthP == nil) {
+				bad = "the helper does not write the prefix once and the indent once per level"
+			}
+			// the call sites pass Indent's own prefix and indent parameters
+			if bad == "" {
+				for _, ci := range callsTo(fn, func(cc *ssa.CallCommon) bool { return cc.StaticCallee() == nl }) {
+					args := ci.Common().Args
+					pa, ia := args[paramIdx(prefixP)], args[paramIdx(indentP)]
+					pp, ok1 := pa.(*ssa.Parameter)
+					ip, ok2 := ia.(*ssa.Parameter)
+					if !ok1 || !ok2 || pp.Parent() != fn || ip.Parent() != fn || pp == ip {
+						bad = "the line break at " + b.posOf(ci) + " is not written with Indent's own prefix and indent arguments"
+					}
+				}
+			}
+			if bad != "" {
+				l.add("R-DRIVER", "codec", key, b.rel(nl.Pos()), Violated, bad, true)
+			} else {
+				l.add("R-DRIVER", "codec", key, b.rel(nl.Pos()), Discharged, fmt.Sprintf("%s writes '\\n', %s, then %s once per i in [0,%s); every call passes Indent's prefix and indent", fname(nl), prefixP.Name(), indentP.Name(), depthP.Name()), true)
+			}
+		}
 	}
 
 	// eof's shape
